@@ -116,7 +116,11 @@ func (q *rpcQueue) Pop(ctx context.Context) (*RPC, error) {
 		// Wake up all the waiting routines. The only routine that correponds
 		// to this Pop call will return from the function. Note that this can
 		// be expensive, if there are too many waiting routines.
+		// Take the lock so that the broadcast cannot land between the
+		// ctx.Done() check and the Wait() call in the loop below.
+		q.queueMu.Lock()
 		q.dataAvailable.Broadcast()
+		q.queueMu.Unlock()
 	})
 	defer unregisterAfterFunc()
 
